@@ -66,13 +66,16 @@ def install(ctx, repo, probes):
         epoch = R.unix_epoch_rd(MODE) * 86400
         secs = int((inst - epoch) // 1)
         want = R.posix_strftime(MODE, fmt, rd, int(sod // 1), off, secs)
-        if exc is None and text != want and sod.denominator != 1:
+        hform_minutes = (key[3] is None and key[4] is None and off % 60)
+        if exc is None and text != want and (sod.denominator != 1 or
+                                             hform_minutes):
             # fractional time of day (tolerance regime, R1): a field within
             # 1e-6 s of the next whole second may print as that second, and
             # either neighbouring whole second is accepted for %s
             eps = F(1, 10**6)
-            for s2 in {int(sod // 1), int((sod + eps) // 1)}:
-                for e2 in {secs, secs + 1}:
+            for s2 in {int(sod // 1), int((sod + eps) // 1),
+                       max(0, int((sod - eps) // 1))}:
+                for e2 in {secs - 1, secs, secs + 1}:
                     alt = R.posix_strftime(MODE, fmt, rd, min(s2, 86399),
                                            off, e2)
                     if text == alt:
